@@ -42,11 +42,16 @@ func fixedHistories() []histIn {
 		// admin deletions between registrations, the wildcard topic deletes everything
 		mk("fixed-admin-deletes", def, 2, id(0, a), reg(0, "t1", "c1"), reg(0, "t2", "c1"), opIn{K: "delete_channel", QT: sp("t1"), QC: sp("c1")},
 			opIn{K: "delete_channel", QT: sp("t1"), QC: sp("c1")}, reg(0, "t1", "c1"), opIn{K: "delete_topic", QT: sp("t1")}, reg(0, "t1", ""),
-			opIn{K: "create_channel", QT: sp("t2"), QC: sp("c2")}, opIn{K: "create_topic", QT: sp("zz")}, opIn{K: "delete_topic", QT: sp("*")},
+			opIn{K: "create_channel", QT: sp("t2"), QC: sp("c2")}, opIn{K: "create_topic", QT: sp("zz")}, opIn{K: "delete_topic", QT: sp("*")}, tomb("*", "h1:4151"),
 			reg(0, "t2", "c2"), opIn{K: "create_topic", QT: sp("bad$")}, opIn{K: "create_topic"}, opIn{K: "delete_channel", QT: sp("t2"), QC: sp("*")}),
 		// two connections with the same broadcast_address:http_port are tombstoned together
 		mk("fixed-same-node", def, 3, id(0, a), id(1, c), id(2, b), reg(0, "t1", ""), reg(1, "t1", ""), reg(2, "t1", ""), reg(1, "t2", ""),
 			tomb("t1", "h1:4151"), tomb("t2", "nope:1"), opIn{K: "disconnect", Slot: 0}, adv(7)),
+		// keys that outlive their producers (H1 durable, H2 ephemeral + disconnect, H3 ephemeral channel + topic UNREGISTER),
+		// and the one way an ephemeral key does leave (UNREGISTER naming it)
+		mk("fixed-stale-keys", def, 3, id(0, a), reg(0, "t1", "c1"), opIn{K: "disconnect", Slot: 0},
+			id(1, b), reg(1, "eph#ephemeral", "ce#ephemeral"), opIn{K: "disconnect", Slot: 1},
+			id(2, a), reg(2, "t2", "ce#ephemeral"), unreg(2, "t2", ""), reg(2, "t2", "ce#ephemeral"), unreg(2, "t2", "ce#ephemeral")),
 		// refused commands close the connection and drop its registrations
 		mk("fixed-refusals", def, 2, id(0, a), reg(0, "t1", "c1"), reg(0, "bad$", ""), reg(0, "t1", ""), id(0, a), reg(0, "t1", "c1"),
 			reg(0, "t1", "c$"), id(1, b), reg(1, "t1", ""), id(1, b), reg(1, "t1", ""), unreg(1, "", "c1"),
@@ -67,6 +72,8 @@ func fixedSessions() []sessIn {
 		conn("identify-size-0", "E_BAD_BODY", z),
 		conn("identify-size-negative", "E_BAD_BODY", append([]byte("  V1IDENTIFY\n"), 0x80, 0, 0, 0)),
 		actIn{K: "http", Method: "POST", Path: "/topic/delete"},
+		actIn{K: "http", Method: "POST", Path: "/topic/delete", QT: sp("*")},
+		actIn{K: "http", Method: "POST", Path: "/topic/tombstone", QT: sp("*"), QN: sp("bystander:4151")},
 		actIn{K: "http", Method: "GET", Path: "/lookup", QT: sp(byTopic)},
 	)
 	return []sessIn{{Profile: "hostile", Name: "fixed-F2-identify-negative-size", Acts: acts}}
